@@ -362,7 +362,9 @@ DIFF_RE = re.compile(r'^"<<\\"(DIFF|SKIP|COMPARED)\\", (\d+), (.*)>>"$')
 def trace_equal(d, trace_a, trace_b, mode, tag):
     """TLC (TraceEq.tla) compares two traces run by run; returns (diffs [(run, text)], skipped, compared)."""
     open(os.path.join(d, "TraceEq.cfg"), "w").write("\n")
-    env = {"TRACE": trace_a, "TRACE2": trace_b, "EQMODE": mode}
+    # the schedules compared here are cycle-free by construction (AvoidCycles, or counterexamples to "panic only on a
+    # real cycle"), so a deadlock panic in the feature build is a difference, never skipped
+    env = {"TRACE": trace_a, "TRACE2": trace_b, "EQMODE": mode, "EQSKIP": "none"}
     cmd = ["java", "-XX:+UseParallelGC", "-Xmx6g", "-Xss1g",
            "-cp", "/opt/veriftools/tla/tla2tools.jar:/opt/veriftools/tla/CommunityModules-deps.jar",
            "tlc2.TLC", "-workers", "1", "-metadir", os.path.join(d, "meta_eq_" + tag), "-noGenerateSpecTE",
@@ -488,7 +490,7 @@ def do_check(pid, plan, tier, seed, d, evid_path, t0):
     for mc in T.get("mc", []):
         consts = dict(BASE)
         consts.update(mc["consts"])
-        r = model_check(d, mc["name"], consts, plan["invariants"] + ["PermitConservation", "WaitersOnlyWhenFull"],
+        r = model_check(d, mc["name"], consts, (mc.get("invariants") or plan["invariants"]) + ["PermitConservation", "WaitersOnlyWhenFull"],
                         timeout=mc.get("timeout", 900), workers=mc.get("workers", NCPU))
         mc_results.append(r)
         total_states += r["states"]
@@ -500,7 +502,7 @@ def do_check(pid, plan, tier, seed, d, evid_path, t0):
                 log("model config %s violates %s as expected (%d-step counterexample)" %
                     (mc["name"], r["violated"], len(r["cex"] or [])))
                 if r["cex"]:
-                    cex_scheds.append((mc["name"], r["cex"]))
+                    cex_scheds.append((mc["name"], r["cex"], mc.get("cex_pairs", [])))
             else:
                 raise ToolError("MODEL FAILURE: invariant %s violated in the model itself (config %s); "
                                 "the model or the monitor is wrong -- see %s" % (r["violated"], mc["name"], d))
@@ -512,10 +514,23 @@ def do_check(pid, plan, tier, seed, d, evid_path, t0):
     nontrivial = set()
     samples = []
     # ---- counterexamples of finding configs: does the real code do what the (defective) model does?
-    for (name, steps) in cex_scheds:
+    for (name, steps, cpairs) in cex_scheds:
         sp = os.path.join(d, "sched_cex_%s.ndjson" % name)
         open(sp, "w").write(json.dumps(steps) + "\n")
         tr, rep = replay(binp, sp, d, "cex_" + name)
+        for pr in cpairs:
+            bin2 = build_harness(pr["feats"])
+            label = feat_key(pr["feats"])
+            tr2, rep2 = replay(bin2, sp, d, "cex_" + name + "_" + label)
+            diffs, skipped, compared = trace_equal(d, tr, tr2, "behaviour", "cex_" + name + "_" + label)
+            pair_stats.append({"stage": "cex_" + name, "against": label, "runs_compared": compared,
+                               "skipped_ask_cycle": skipped, "differing": len(diffs)})
+            traces += compared
+            for (rid, text) in diffs[:3]:
+                rp = save_replay(pid, "cex_" + name + "_" + label, rid, json.dumps(steps),
+                                 {"reference": load_runs(tr).get(rid, []), "other": load_runs(tr2).get(rid, [])}, [text])
+                violations.append(("cex_" + name + "_" + label, rid, pid, "trace differs from the reference execution: " + text[:300], rp))
+            log("counterexample of %s: default vs %s: %d differ" % (name, label, len(diffs)))
         files, nruns, nev = split_trace(tr, d, "cex_" + name, 1)
         traces += nruns
         events += nev
